@@ -364,6 +364,12 @@ def collection_expr(raw):
     """Gallina expression evaluating the model on the raw columns of one collection"""
     A = raw["attrs"]
     px = raw["pixels"]
+    if raw.get("missing") or any(k not in A for k in ("nnz", "nbins", "nchroms", "storage-mode")):
+        return None
+    if any(k not in px for k in ("bin1_id", "bin2_id")) or any(k not in raw["bins"] for k in ("chrom", "start", "end")):
+        return None
+    if any(k not in raw["indexes"] for k in ("bin1_offset", "chrom_offset")):
+        return None
     if "count" not in px or not np.issubdtype(px["count"].dtype, np.integer):
         return None
     b1 = [int(x) for x in px["bin1_id"]]
@@ -441,7 +447,7 @@ def check_recipe(ctx, recipe, pending, tag, created=None):
         if not os.path.exists(path):
             continue
         try:
-            colls = G.find_collections(path)
+            colls = G.find_collections(path, marked_only=(outcome != "ok"))
         except Exception as e:
             ctx.fail({**case, "file": fname}, {"unreadable": repr(e)[:200]}, None)
             holds = False
@@ -462,7 +468,7 @@ def check_recipe(ctx, recipe, pending, tag, created=None):
                 holds = False
                 sig = G.signature_for(recipe, fname, grp, errs)
                 ctx.fail(ccase, {"errors": [f"{c}: {m}" for c, m in errs][:6]}, sig)
-            if created is not None and len(recipe) == 1 and outcome == "ok":
+            if created is not None and len(recipe) == 1 and outcome == "ok" and not errs:
                 ex = create_model_expr(recipe[0])
                 if ex is not None:
                     created.append((ccase, ex, raw_record(raw)))
